@@ -161,15 +161,17 @@ mod iso {
             };
         }
         let mut status: libc::c_int = 0;
+        let mut ru: libc::rusage = unsafe { std::mem::zeroed() };
         loop {
-            let r = unsafe { libc::waitpid(pid, &mut status, 0) };
+            let r = unsafe { libc::wait4(pid, &mut status, 0, &mut ru) };
             if r == pid {
                 break;
             }
             if r < 0 && std::io::Error::last_os_error().raw_os_error() != Some(libc::EINTR) {
-                vcore::machinery("waitpid failed");
+                vcore::machinery("wait4 failed");
             }
         }
+        let max_rss_kb = ru.ru_maxrss as u64;
         let mut outs = Vec::new();
         let b = std::fs::read(&outp).unwrap_or_default();
         for line in b.split(|c| *c == b'\n') {
@@ -188,8 +190,13 @@ mod iso {
             panic!("harness failure inside child (outside any oracle): {p}");
         } else if libc::WIFSIGNALED(status) {
             let sig = libc::WTERMSIG(status);
-            let how = if sig == libc::SIGPROF {
-                "hang-cpu-signal27".to_string()
+            // A computation that never terminates trips either the CPU-time watchdog (SIGPROF) or, when it
+            // accumulates results, the address-space limit (allocation failure -> abort) — whichever comes
+            // first on the machine at hand.  Both are reported as one class so that the verdict does not
+            // depend on machine speed: an abort counts as runaway only if the child's peak RSS exceeded
+            // 256 MiB (inputs are < 1 MiB; a single oversized allocation request leaves RSS small).
+            let how = if sig == libc::SIGPROF || (sig == libc::SIGABRT && max_rss_kb >= 256 * 1024) {
+                "hang-runaway-cpu-or-memory".to_string()
             } else if sig == libc::SIGALRM {
                 "hang-wall-signal14".to_string()
             } else {
@@ -2488,7 +2495,7 @@ mod partb {
                 let n = cases.len() as u64;
                 // files root/<table>.tbd, root/<table>_<index>.idx, root/<table>_toast.tbd belong to one table
                 let owner: Option<&'static str> = if quick { rel.strip_prefix("root/").and_then(|f| plan.tables.iter().map(|t| t.0).find(|t| f.starts_with(&format!("{t}.")) || f.starts_with(&format!("{t}_")))) } else { None };
-                v.push(Box::new(BBlock { info: BlockInfo { key, dec: format!("db.{}", class_of(rel)), kind: kind.to_string(), n, hang_s: HANG_B_S, alarm_every: 1, tier: ctx.tier.name() }, plan: plan.clone(), file, cases, only_table: owner }));
+                v.push(Box::new(BBlock { info: BlockInfo { key, dec: format!("db.{}", class_of(rel)), kind: kind.to_string(), n, hang_s: ctx.opt("hang_s").and_then(|v| v.parse().ok()).unwrap_or(HANG_B_S), alarm_every: 1, tier: ctx.tier.name() }, plan: plan.clone(), file, cases, only_table: owner }));
             };
             push(&mut v, 0, "identity", vec![BCase::Identity]);
             for fi in 0..plan.db.files.len() {
@@ -2532,7 +2539,7 @@ impl Check for C23 {
             "PART A: for every pub decoder and every seed (a valid encoding built with the real encoder, one per structural shape): every single-byte substitution at every offset (all 256 values for seeds <= 160 bytes, else {00,01,7F,80,FE,FF,b^1,b^80}), every truncation length, every single-byte insertion ({00,01,7F,80,FE,FF}) and deletion at every offset (page-sized inputs: size-preserving shift variants and zeroed tails), all byte strings of length <= 2 over 256 values and length 3 over 16 values, constant/periodic strings of length 64/1024/16384; inputs end at a PROT_NONE page. PART B: for every file of a real 3-table database (secondary index, TOAST values, 2-level tree) and of a WAL-crashed database: byte substitutions {00,FF,b^1,b^80} over file headers, page headers, slot arrays, cell headers (other bytes in strides) and truncations to every page multiple and +-1, each followed by Database::open, SELECT *, COUNT(*), PK lookup, indexed lookup per table, close. A case is one mutated input; cases are pairwise distinct by construction (identity and duplicate substitutions are skipped); every case differs from a valid encoding (non-trivial).",
         );
         s.assumptions = &[
-            "oracle = every call returns Ok or Err in bounded time: a panic (caught per call), abort, SIGSEGV/SIGBUS (guard page), stack overflow or hang (a case consuming more than 2 s of CPU time — or 60 s of wall time without CPU — inside its block AND 3x that in each of two re-runs alone in fresh processes) is a violation; returned values are not compared",
+            "oracle = every call returns Ok or Err in bounded time: a panic (caught per call), abort, SIGSEGV/SIGBUS (guard page), stack overflow or hang (a case consuming more than 2 s of CPU time — or 60 s of wall time without CPU — inside its block AND 3x that in each of two re-runs alone in fresh processes) is a violation; an abort after the child grew beyond 256 MiB RSS is classified together with CPU timeouts as 'hang-runaway-cpu-or-memory' (a non-terminating loop trips whichever limit comes first); returned values are not compared",
             "children run with RLIMIT_AS = 1.5 GiB and RLIMIT_FSIZE = 1 GiB: an allocation or file growth beyond that requested by a <= 64 KiB input counts as abort / Err",
             "built with debug-assertions and overflow-checks on (workspace dev profile): arithmetic overflow panics are reported with class *-overflow",
             "two or more simultaneous byte errors are outside the bound (except zeroed tails, truncations and checksum-consistent WAL header edits)",
